@@ -35,7 +35,14 @@ func (x *tr) tokresVal(e ast.Expr) string {
 	if s == "nil" {
 		return "(0%Z, 0%Z)"
 	}
+	if h, ok := x.t.Hints[s]; ok && h.Typ == "tokres" { // a token result computed elsewhere: a (tag, value) parameter
+		return x.param(h.Var, "tokres").coq
+	}
 	if ce, ok := e.(*ast.CallExpr); ok {
+		if a, ok := x.lookupAct(ce); ok && a.Ret.Typ == "tokres" { // recorded call that yields the token result
+			v, _ := x.actCall(ce)
+			return v.coq
+		}
 		fn := src(x.p.fset, ce.Fun)
 		if c, ok := x.t.Ctors[fn]; ok {
 			if c.Arg < 0 {
@@ -86,6 +93,11 @@ func (x *tr) commaOk(s *ast.AssignStmt, tail []ast.Stmt, rest [][]ast.Stmt) (str
 	if !ok1 || !ok2 {
 		return "", false
 	}
+	if ce, ok := s.Rhs[0].(*ast.CallExpr); ok {
+		if _, isAct := x.lookupAct(ce); isAct { // e.g. cache.Get moves the element to the front: recorded
+			x.actCall(ce)
+		}
+	}
 	saved := x.snapshot()
 	pre := ""
 	for i, h := range []hint{hv, hk} {
@@ -109,9 +121,60 @@ func (x *tr) commaOk(s *ast.AssignStmt, tail []ast.Stmt, rest [][]ast.Stmt) (str
 	}
 	body := x.exec(tail, rest)
 	if s.Tok == token.DEFINE {
-		x.restore(saved)
+		x.restoreScope(saved)
 	}
 	return pre + body, true
+}
+
+// restoreScope: restore the variable table but keep the path-sensitive translator state (reserved keys
+// with a NUL prefix: action trace, occurrence counters of effects.go) as it is now
+func (x *tr) restoreScope(saved map[string]string) {
+	for k, v := range x.vars {
+		if strings.HasPrefix(k, "\x00") {
+			saved[k] = v
+		}
+	}
+	x.restore(saved)
+}
+
+// actOpaque: `p := call(...)` where the call is a recorded action (Acts) whose result is a pointer used
+// only through further hints (Ret.Typ "opaque"): the action is recorded, p becomes an opaque variable
+// (`p == nil` is then the parameter p_nil, effects.go)
+func (x *tr) actOpaque(s *ast.AssignStmt) bool {
+	if len(s.Lhs) != 1 || len(s.Rhs) != 1 || s.Tok != token.DEFINE {
+		return false
+	}
+	id, ok := s.Lhs[0].(*ast.Ident)
+	ce, ok2 := s.Rhs[0].(*ast.CallExpr)
+	if !ok || !ok2 {
+		return false
+	}
+	a, ok := x.lookupAct(ce)
+	if !ok || a.Ret.Typ != "opaque" || a.Ret.Var != "" {
+		return false
+	}
+	x.actCall(ce)
+	if id.Name != "_" {
+		x.vars[id.Name] = "ptr:?"
+	}
+	return true
+}
+
+// addrOf: `&v` with v a local scalar variable stands for the value handed over through the pointer
+// (cache.AddIfAbsent(k, &v) stores v's current value); only meaningful as a recorded action argument -
+// Go's typing keeps it out of arithmetic
+func (x *tr) addrOf(e *ast.UnaryExpr) (val, bool) {
+	if e.Op != token.AND {
+		return val{}, false
+	}
+	id, ok := e.X.(*ast.Ident)
+	if !ok {
+		return val{}, false
+	}
+	if t, ok := x.vars[id.Name]; ok && isBasic(t) {
+		return val{coq: cname(id.Name), typ: t}, true
+	}
+	return val{}, false
 }
 
 // lookupField: type of field f of struct sn, searching embedded structs of the package (promotion)
@@ -168,8 +231,39 @@ func (x *tr) callExt(fn string, e *ast.CallExpr) (val, bool) {
 	if fn == "time.Duration" && len(e.Args) == 1 {
 		return x.convert("int64", x.expr(e.Args[0])), true
 	}
+	if fn == "math.Round" && len(e.Args) == 1 {
+		// Base/GoFloat.v has no float-valued Round: the value has the internal type "round" and is only
+		// usable under an int64(...) conversion (leaf_i64_of_round, preamble below)
+		v := x.coerce(x.expr(e.Args[0]), "float64")
+		return val{coq: v.coq, typ: "round"}, true
+	}
 	return val{}, false
 }
+
+// convertExt: int64(math.Round(f))
+func (x *tr) convertExt(to string, v val) (val, bool) {
+	if v.typ == "round" {
+		if to == "int64" || to == "int" {
+			return val{coq: "(leaf_i64_of_round " + v.coq + ")", typ: to}, true
+		}
+		fail("math.Round is only supported under an int64 conversion")
+	}
+	return val{}, false
+}
+
+// preamble of Leaf_gen.v: math.Round (nearest integer, halves away from zero) followed by Go's int64
+// conversion (amd64: -2^63 when out of range / NaN / Inf), on the exact value m * 2^e of the double
+const hotspotPreamble = "Definition leaf_round_Z (f : float) : option Z :=\n" +
+	"  match Prim2SF f with\n" +
+	"  | S754_zero _ => Some 0%Z\n" +
+	"  | S754_finite s m e =>\n" +
+	"      let v := if (0 <=? e)%Z then (Zpos m * 2 ^ e)%Z else ((Zpos m + 2 ^ (- e - 1)) / 2 ^ (- e))%Z in\n" +
+	"      Some (if s then (- v)%Z else v)\n" +
+	"  | _ => None\n  end.\n" +
+	"Definition leaf_i64_of_round (f : float) : Z :=\n" +
+	"  match leaf_round_Z f with\n" +
+	"  | Some t => if ((- two63 <=? t)%Z && (t <? two63)%Z)%bool then t else (- two63)%Z\n" +
+	"  | None => (- two63)%Z\n  end.\n\n"
 
 // isMessageExpr: right-hand sides that build a message string
 func (x *tr) isMessageExpr(e ast.Expr) bool {
